@@ -34,6 +34,9 @@ def run(ctx):
         xh.Cond(H, 'cleanup_keeps_active', timeout=300 if q else 900, path_timeout=30,
                 bound='two foreign pickles with arbitrary atime/mtime, arbitrary lock time, arbitrary clock and gap (ms)',
                 symbolic='7 time values'),
+        xh.Cond(H, 'dir_vanishes', timeout=200, path_timeout=30,
+                bound='cached parse, cache directory removed from outside, {write, new process, touch}, cached parse',
+                symbolic='2 flags, parse mode'),
         xh.Cond(H, 'torn_load', timeout=200, path_timeout=30, twin='only-filenotfound'),
         xh.Cond(H, 'cleanup_keeps_active', timeout=200, path_timeout=30, twin='cleanup-by-mtime'),
     ]
